@@ -125,6 +125,8 @@ class _UnionNormType(_BasicNormType):
     def _make_orderable(self, obj: object) -> str:
         if isinstance(obj, BaseNormType):
             return f"{obj.origin} {[self._make_orderable(arg) for arg in obj.args]}"
+        if isinstance(obj, tuple):  # parameters of Callable, repr() of norm types depends on the spelling of the hint
+            return f"({[self._make_orderable(el) for el in obj]})"
         return repr(obj)  # str() does not distinguish `1` and `"1"`
 
     def _order_args(self, args: VarTuple[BaseNormType]) -> VarTuple[BaseNormType]:
